@@ -489,6 +489,17 @@ fn experiment(case: &Case, p: &Profile, t: &Trip, st: &mut Stats) -> Outcome {
         check_watch(&mut xs, &mut b, "during a follow-up evaluation")?;
         st.count("probe.follow_up_evaluations_under_the_same_limits");
     }
+    // the host defines variables too (a plugin loading its context, a mapped file's handle): with the
+    // heap limit still armed the heap may not grow past it whoever asks and whatever is stored
+    if t.kind == Kind::Heap {
+        let _ = xs.defvar("zzhostv1".into(), Cell::from(1i64));
+        check_invariants(&xs, &b, "after a host defvar")?;
+        let _ = xs.defvar_anonymous(Cell::from_any(0u8));
+        check_invariants(&xs, &b, "after a host defvar of a host object")?;
+        let _ = xeh::d2_plugin::load(&mut xs);
+        check_invariants(&xs, &b, "after loading the canvas plugin")?;
+        st.count("probe.host_definitions_under_heap_limit");
+    }
     if tripped {
         st.nontrivial = true;
         recovery(&mut xs, st, t.kind)?;
